@@ -3587,12 +3587,14 @@ impl KotoVm {
                         }
                         StringAlignment::Left => rendered + &fill.repeat(fill_chars),
                         StringAlignment::Center => {
-                            let half_fill_chars = fill_chars as f32 / 2.0;
+                            // Integer arithmetic: `fill_chars as f32` is inexact above 2^24
+                            let fill_left = fill_chars / 2;
+                            let fill_right = fill_chars - fill_left;
                             format!(
                                 "{}{}{}",
-                                fill.repeat(half_fill_chars.floor() as usize),
+                                fill.repeat(fill_left),
                                 rendered,
-                                fill.repeat(half_fill_chars.ceil() as usize),
+                                fill.repeat(fill_right),
                             )
                         }
                         StringAlignment::Right => fill.repeat(fill_chars) + &rendered,
